@@ -241,7 +241,7 @@ func (r *Report) Finish(verifDir string, onlyKey string) int {
 	}
 	vdir := filepath.Join(verifDir, "evidence", "violations")
 	// clear stale violation files of this property
-	if onlyKey == "" {
+	if onlyKey == "" && os.Getenv("VERIF_NO_EVIDENCE") == "" {
 		if ents, err := os.ReadDir(vdir); err == nil {
 			for _, e := range ents {
 				if strings.HasPrefix(e.Name(), r.Prop+"-") {
@@ -250,7 +250,13 @@ func (r *Report) Finish(verifDir string, onlyKey string) int {
 			}
 		}
 	}
+	noEv := os.Getenv("VERIF_NO_EVIDENCE") != ""
 	for i, o := range viol {
+		if noEv {
+			fmt.Printf("   violated %s at %s: %s\n", o.Key, o.Pos, o.Detail)
+			fmt.Printf("VIOLATION property=%s replay=-\n", r.Prop)
+			continue
+		}
 		os.MkdirAll(vdir, 0o755)
 		path := filepath.Join(vdir, fmt.Sprintf("%s-%d.json", r.Prop, i+1))
 		b, _ := json.MarshalIndent(map[string]interface{}{"property": r.Prop, "rule": o.Rule, "key": o.Key, "pos": o.Pos, "status": o.Status, "detail": o.Detail}, "", " ")
@@ -259,7 +265,7 @@ func (r *Report) Finish(verifDir string, onlyKey string) int {
 		fmt.Printf("   violated %s at %s: %s\n", o.Key, o.Pos, o.Detail)
 		fmt.Printf("VIOLATION property=%s replay=%s\n", r.Prop, rel)
 	}
-	if onlyKey == "" {
+	if onlyKey == "" && !noEv {
 		r.writeEvidence(verifDir, total, disc, len(distinct), len(viol), knownHits)
 	}
 	if len(r.Errors) > 0 {
